@@ -43,6 +43,14 @@ CONSTANTS MaxParams,     \* named parameters per signature
           Hosts,         \* subset of BOOLEAN: a site's own scope has a live local named like a local
                          \*   of the inlined body
           Dups,          \* subset of BOOLEAN: a site may repeat the call text of site 1
+          Mods,          \* modules holding call sites (Task = "inline"): 1 = the defining module, 2, 3 = importers
+          Imps,          \* subset of BOOLEAN: the inlined body needs a name imported in the defining module
+          Ctxs,          \* syntactic contexts a call site is rendered in (statement, right-hand side, nested,
+                         \*   followed by more expression, on a continuation line of a multi-line statement);
+                         \*   like Kinds a rendering dimension exported with every behaviour
+          Furniture,     \* what else the modules of Task = "sig" contain around the call sites ("none",
+                         \*   "from_then_lazy_import": `raise .. from` / `yield from` before and function-level
+                         \*   imports after call sites); rendering dimension exported with every behaviour
           MaxRecv,       \* receivers of bound calls are attribute chains of 1..MaxRecv components
           MaxPreviews,   \* requests computed and discarded before the performed request (Task = "sig")
           PreviewKinds   \* subset of {"intro", "same"}: what is previewed (introduce-parameter / the very
@@ -189,11 +197,13 @@ VARIABLES sig0,    \* signature before
           hostval, \* [site -> value of the host scope's own local after the request | 0 = none]
           hostvalC,\* the same in the defect model "generated body cached by call text"
           cache,   \* per generator: set of [c, vb, renamed] bodies generated so far (defect model)
+          imported,  \* modules that were given the imports the body needs
+          importedD, \* the same in the defect model "the list of needed imports can be read once"
           todo,    \* sites still to be visited, in rope's visiting order
           defgone  \* definition removed
 
-vars == <<sig0, sig, calls, exp, expl, chg, pre, sites, opt, shown, shownD, shownS, shownL, carry, stale, hostval, hostvalC, cache, todo, defgone>>
-inlvars == <<sites, opt, shown, shownD, shownS, shownL, carry, stale, hostval, hostvalC, cache, todo, defgone>>
+vars == <<sig0, sig, calls, exp, expl, chg, pre, sites, opt, shown, shownD, shownS, shownL, carry, stale, hostval, hostvalC, cache, imported, importedD, todo, defgone>>
+inlvars == <<sites, opt, shown, shownD, shownS, shownL, carry, stale, hostval, hostvalC, cache, imported, importedD, todo, defgone>>
 sigvars == <<calls, exp, expl, chg, pre>>
 
 Changer(op, i, perm, auto, d, v) == [op |-> op, i |-> i, perm |-> perm, auto |-> auto, d |-> d, v |-> v]
@@ -336,12 +346,14 @@ InlineSigs == { s \in Sigs : ~s.va /\ ~s.kw /\ s.ko = 0 }
 AsPairs(m) == { <<name, m[name]>> : name \in DOMAIN m }
 \* argument values are site-unique unless the site repeats the text of site 1:
 \* the k-th argument of site i is 100*VB(i) + k
+\* one generator serves the defining module, another one all the other modules
+Gen(m) == IF m = 1 THEN 1 ELSE 2
 VB(i) == IF sites[i].dup THEN 1 ELSE i
 SV(i, v) == IF v < 10 THEN 100 * VB(i) + v ELSE v
 HostVal(i) == IF sites[i].h THEN 900 + i ELSE 0
 \* sites whose call text is identical (same shape, same values) and that the same generator handles
 Twins == { <<i, j>> \in (DOMAIN sites) \X (DOMAIN sites) :
-             i < j /\ sites[i].c = sites[j].c /\ VB(i) = VB(j) /\ sites[i].m = sites[j].m }
+             i < j /\ sites[i].c = sites[j].c /\ VB(i) = VB(j) /\ Gen(sites[i].m) = Gen(sites[j].m) }
 DefaultMap(s) == [name \in Names(s) |-> s.ps[Idx(s, name)].d]
 ParMap(s, c, i) == [name \in Names(s) |-> SV(i, ValOf(s, c, Idx(s, name)))]
 SiteBinding(i) == AsPairs(ParMap(sig, sites[i].c, i))
@@ -366,7 +378,7 @@ InlineCall ==
   /\ Task = "inline"
   /\ todo # <<>>
   /\ LET s == Head(todo)
-         g == sites[s].m
+         g == Gen(sites[s].m)
          m2 == Updated(carry[g], sig, sites[s].c, s)
      IN /\ shown' = [shown EXCEPT ![s] = ShowMap(ParMap(sig, sites[s].c, s))]
         /\ shownD' = [shownD EXCEPT ![s] = ShowMapD(m2)]
@@ -375,6 +387,9 @@ InlineCall ==
         /\ carry' = [carry EXCEPT ![g] = m2]
         /\ stale' = IF m2 # ParMap(sig, sites[s].c, s) THEN stale \cup {s} ELSE stale
         /\ hostval' = [hostval EXCEPT ![s] = HostVal(s)]
+        \* a module other than the defining one that receives the body also receives its imports
+        /\ imported' = IF opt.imp /\ sites[s].m # 1 THEN imported \cup {sites[s].m} ELSE imported
+        /\ importedD' = IF opt.imp /\ sites[s].m # 1 /\ importedD = {} THEN {sites[s].m} ELSE importedD
         /\ LET hit == { e \in cache[g] : e.c = sites[s].c /\ e.vb = VB(s) }
                renamed == IF hit = {} THEN sites[s].h ELSE (CHOOSE e \in hit : TRUE).renamed
            IN /\ hostvalC' = [hostvalC EXCEPT ![s] = IF sites[s].h /\ ~renamed THEN 1 ELSE HostVal(s)]
@@ -393,8 +408,8 @@ VisitOrder(ss, tg) == SelectSeq([i \in 1..Len(ss) |-> i], LAMBDA i : i \in tg)
 
 ---------------------------------------------------------------------------
 NoInline ==
-  /\ sites = <<>> /\ opt = [remove |-> FALSE, only |-> FALSE, cur |-> 0, use |-> "plain", cx |-> FALSE]
-  /\ shown = <<>> /\ shownD = <<>> /\ shownS = <<>> /\ shownL = <<>> /\ carry = <<>> /\ stale = {} /\ hostval = <<>> /\ hostvalC = <<>> /\ cache = <<>> /\ todo = <<>> /\ defgone = FALSE
+  /\ sites = <<>> /\ opt = [remove |-> FALSE, only |-> FALSE, cur |-> 0, use |-> "plain", cx |-> FALSE, imp |-> FALSE]
+  /\ shown = <<>> /\ shownD = <<>> /\ shownS = <<>> /\ shownL = <<>> /\ carry = <<>> /\ stale = {} /\ hostval = <<>> /\ hostvalC = <<>> /\ cache = <<>> /\ imported = {} /\ importedD = {} /\ todo = <<>> /\ defgone = FALSE
 
 InitSig ==
   /\ Task = "sig"
@@ -408,7 +423,7 @@ InitSig ==
   /\ NoInline
 
 SiteSeqs(s) ==
-  UNION { [1..k -> [c : AllCalls(s), m : {1, 2}, h : Hosts, dup : Dups]] : k \in 1..MaxSites }
+  UNION { [1..k -> [c : AllCalls(s), m : Mods, h : Hosts, dup : Dups]] : k \in 1..MaxSites }
 
 InitInline ==
   /\ Task = "inline"
@@ -419,12 +434,12 @@ InitInline ==
   /\ \A i, j \in DOMAIN sites : (i < j) => sites[i].m <= sites[j].m    \* numbered module by module
   /\ ~sites[1].dup
   /\ \A i \in DOMAIN sites : sites[i].dup => sites[i].c = sites[1].c  \* a repeat of site 1's call text
-  /\ \E rm \in BOOLEAN, only \in BOOLEAN, cur \in DOMAIN sites, use \in Uses, cx \in Cxs :
+  /\ \E rm \in BOOLEAN, only \in BOOLEAN, cur \in DOMAIN sites, use \in Uses, cx \in Cxs, imp \in Imps :
         /\ (~only => cur = 1)
         \* legal request: asking to remove the definition while inlining only one
         \* of several call sites would leave calls to nothing
         /\ ((only /\ rm) => Len(sites) = 1)
-        /\ opt = [remove |-> rm, only |-> only, cur |-> cur, use |-> use, cx |-> cx]
+        /\ opt = [remove |-> rm, only |-> only, cur |-> cur, use |-> use, cx |-> cx, imp |-> imp]
   /\ shown = [i \in DOMAIN sites |-> {}]
   /\ shownD = [i \in DOMAIN sites |-> {}]
   /\ shownS = [i \in DOMAIN sites |-> {}]
@@ -434,6 +449,8 @@ InitInline ==
   /\ hostval = [i \in DOMAIN sites |-> HostVal(i)]
   /\ hostvalC = [i \in DOMAIN sites |-> HostVal(i)]
   /\ cache = <<{}, {}>>
+  /\ imported = {}
+  /\ importedD = {}
   /\ todo = VisitOrder(sites, IF opt.only THEN {opt.cur} ELSE DOMAIN sites)
   /\ defgone = FALSE
 
@@ -489,6 +506,10 @@ HostLocalsKept ==
 \* defect model "body cached by call text" (must be violated: sensitivity)
 HostLocalsKeptC ==
   Task = "inline" => \A s \in DOMAIN sites : hostvalC[s] = HostVal(s)
+\* every importing module into which the body was inlined has the imports the body needs
+NeedImports == { sites[s].m : s \in { s \in Targets : sites[s].m # 1 /\ opt.imp } }
+ImportsWhereNeeded == (Task = "inline" /\ todo = <<>>) => imported = NeedImports
+ImportsWhereNeededD == (Task = "inline" /\ todo = <<>>) => importedD = NeedImports
 NoDanglingCall ==
   (Task = "inline" /\ defgone) => \A s \in DOMAIN sites : s \in Targets
 =============================================================================
